@@ -16,7 +16,7 @@ LEVEL = 'model_checking'
 TECHNIQUE = ('deviation-bounded exhaustive exploration (iterative bounding 0,1,2) of consumer actions at every yield of the real '
              'walk()/search() generators, each execution run to completion under a horizon and judged by invariants + a '
              'reference continuation order + C01 on the final tree')
-LEVEL_TEXT = ('for 17 tree shapes x 19 walk settings (walks from the root and from inner nodes) every script with <= 1 consumer action (28-action menu at every yield) and, on a '
+LEVEL_TEXT = ('for 20 tree shapes x 19 walk settings (walks from the root and from inner nodes) every script with <= 1 consumer action (33-action menu at every yield) and, on a '
               'subset, <= 2 actions is executed on the real generator; nothing is sampled; each execution is checked for '
               'exceptions, termination, liveness/attachment of yielded nodes, duplicates, the documented continuation and C01')
 LEVEL_NOTE = ('trusted: CPython ast for the final tree; consumer actions that themselves raise are "not enabled" and do not count; '
